@@ -150,7 +150,7 @@ def list_fns(src, container):
     return out
 
 
-def type_text(src, kind, name, manifest):
+def type_text(src, kind, name, manifest, keep_fields=None):
     """D2: the definition with attributes and comments removed, fields verbatim."""
     first, bo, bc = find_type(src, kind, name)
     st = src.st
@@ -180,12 +180,40 @@ def type_text(src, kind, name, manifest):
     parts.append(src.text[pos:hi])
     text = ''.join(parts)
     text = re.sub(r'\n\s*\n', '\n', text)
+    dropped_fields = []
+    if keep_fields is not None:
+        # D2': keep only the named fields of a struct (the others have types that cannot be expressed)
+        o = text.index('{')
+        c = text.rindex('}')
+        body = text[o + 1:c]
+        fields, depth, cur = [], 0, ''
+        for ch in body:
+            if ch in '<([':
+                depth += 1
+            elif ch in '>)]':
+                depth -= 1
+            if ch == ',' and depth == 0:
+                fields.append(cur)
+                cur = ''
+            else:
+                cur += ch
+        if cur.strip():
+            fields.append(cur)
+        kept = []
+        for f in fields:
+            nm = re.match(r'\s*(?:pub(?:\([^)]*\))?\s+)?(\w+)\s*:', f)
+            if nm and nm.group(1) in keep_fields:
+                kept.append(f.strip())
+            elif nm:
+                dropped_fields.append(nm.group(1))
+        text = text[:o + 1] + '\n' + ',\n'.join(kept) + ',\n' + text[c:]
     raw = src.text[st[first].start:st[bc].end]
     manifest.append({
         'op': 'extract-type', 'file': src.display, 'item': '%s %s' % (kind, name),
         'line': src.line_of(st[first].start),
         'sha256': hashlib.sha256(raw.encode()).hexdigest(),
         'dropped_attributes(D2)': dropped,
+        'dropped_fields(D2\')': dropped_fields,
     })
     return text
 
@@ -652,6 +680,12 @@ class BlockText(FnText):
     def render_block(self):
         a, c = self._blk
         base, end = self.st[a].start, self.st[c].end
+        if getattr(self, 'body_only', False):
+            # only the statements inside the block's braces
+            k = a
+            while self.st[k].text != '{' or match_close(self.st, k) != c:
+                k += 1
+            base, end = self.st[k].end, self.st[c].start
         text = self.src.text
         edits = sorted([e for e in self.edits if base <= e[0] and e[1] <= end], key=lambda e: (e[0], e[1]))
         out, pos = [], base
